@@ -13,11 +13,15 @@ func build(tier string) []*explore.Scenario {
 	cfgs := []hlib.ChanCfg{{0, false}, {1, true}, {1, false}, {2, true}, {2, false}, {3, true}}
 	bound := 2
 	if tier == "thorough" {
-		bound = 4
+		bound = 3
 	}
 	for _, cfg := range cfgs {
-		for _, mix := range hlib.Mixes(2, 2) {
-			scs = append(scs, hlib.WriteScenario(hlib.WParams{Cfg: cfg, Writers: mix, Bound: bound, Cache: true}, hlib.CheckQuiescent))
+		for mi, mix := range hlib.Mixes(2, 2) {
+			p := hlib.WParams{Cfg: cfg, Writers: mix, Bound: bound, Cache: true}
+			if tier == "thorough" && mi == 0 && cfg.Q > 0 && cfg.Q <= 2 && cfg.Until {
+				p.Bound, p.Shards = 4, 8 // four preemptions for the first mix on the two smallest blocking queues
+			}
+			scs = append(scs, hlib.WriteScenario(p, hlib.CheckQuiescent))
 		}
 	}
 	// three writers, one call each
